@@ -56,6 +56,10 @@ def invert_family(tier):
     # contexts in which the parentheses around the `not` expression matter
     for e in (base if tier == "thorough" else base[::5]):
         progs += ["(%s) + 1" % e, "(%s) == p" % e, "n + (%s)" % e, "(%s) if p else 0" % e, "(%s) < a" % e, "p is (%s)" % e]
+    # layouts: the comparison under the `not` spread over several lines inside its own parentheses (line breaks before
+    # / after the operator, after the opening parenthesis)
+    for l, op, r in (("a", "==", "b"), ("a", "<", "b"), ("a", "is not", "None"), ("p", "!=", "True"), ("a", "in", "c")):
+        progs += ["not (\n    %s\n    %s %s\n)" % (l, op, r), "not (%s %s\n        %s)" % (l, op, r), "not (\n    %s %s %s\n)" % (l, op, r), "not (%s\n    %s %s) and q" % (l, op, r)]
     return sorted(set(progs))
 
 
